@@ -4,12 +4,14 @@ import time
 from vlib.common import finish
 from vlib.bounded import Bounded
 from harness import c01 as driver
+from checks._proof import proof_subobligations
 
 PROP = 'C01'
 
 
 def run():
     t0 = time.time()
+    pv, pu, pe, ppart, passumed = proof_subobligations(PROP, ['contracts.c01_stack'], ['ak.llparser'])
     b = Bounded(PROP, 'harness.c01')
     driver.run(b)
     quick = b.tier == 'quick'
@@ -39,7 +41,13 @@ def run():
              "returns a tree and >= 1 input is rejected with ParsingError",
         exhaustive=False,
         extra={'per_family': stats, 'diagnostic_counts_by_category': b.notes.get('diag_counts', {})})
-    return finish(PROP, 'exploration', b.violations(), [], b.errors, cov,
+    cov.update(ppart)
+    _seen, _viol = set(), []
+    for _v in pv + b.violations():
+        if _v.key not in _seen:
+            _seen.add(_v.key)
+            _viol.append(_v)
+    return finish(PROP, 'exploration', _viol, pu, pe + b.errors, cov, passumed +
                   ["productions are plain tuples / None, plus ProdSequence templates in the 'seq' family (one node whose "
                    "value is the list of element nodes: flattened for the yield, elements must be symbols of the "
                    "template); no ListProds / MapProds / AnyTokenExcept templates",
